@@ -66,6 +66,11 @@ type bOurs struct {
 	Allowed          []string `json:"allowed"`
 	NotAllowed       []string `json:"notAllowed"`
 	KeyIndex         uint32   `json:"keyIndex"` // harness only: key locator index (0xffff = wallet error)
+	// harness only: the order's original size (>= unfulfilled for an order partially filled by
+	// earlier batches; 0 = same as unfulfilled) and the offer of its sidecar ticket
+	Units          uint64 `json:"units"`
+	TicketPushAmt  int64  `json:"ticketPushAmt"`
+	TicketCapacity int64  `json:"ticketCapacity"`
 }
 
 type bAcct struct {
@@ -166,7 +171,10 @@ type bCase struct {
 	Best   uint32   `json:"best"`
 	Msg    bMsg     `json:"msg"`
 	Visit  []string `json:"visit"`
-	Oracle bOracle  `json:"oracle"`
+	// the order of MatchedMarkets consistent with which entry of a nonce occurring in
+	// two markets ParseRPCBatch kept in this run (empty = irrelevant)
+	MarketOrder []uint32 `json:"marketOrder"`
+	Oracle      bOracle  `json:"oracle"`
 	Devs   []string `json:"devs"` // harness only: deviations applied
 }
 
@@ -356,6 +364,9 @@ func (c *bCase) install(s *bSession) error {
 		kit.FixedRate = o.Rate
 		kit.UnitsUnfulfilled = order.SupplyUnit(o.UnitsUnfulfilled)
 		kit.Units = kit.UnitsUnfulfilled
+		if o.Units != 0 {
+			kit.Units = order.SupplyUnit(o.Units)
+		}
 		kit.Amt = kit.Units.ToSatoshis()
 		kit.MultiSigKeyLocator = keychain.KeyLocator{Family: 221, Index: o.KeyIndex}
 		kit.AcctKey = bHex33(o.AcctKey)
@@ -373,9 +384,14 @@ func (c *bCase) install(s *bSession) error {
 			continue
 		}
 		bid := &order.Bid{Kit: *kit, SelfChanBalance: btcutil.Amount(o.SelfChanBalance)}
+		offer := sidecar.Offer{
+			Capacity:            btcutil.Amount(o.TicketCapacity),
+			PushAmt:             btcutil.Amount(o.TicketPushAmt),
+			LeaseDurationBlocks: o.Duration,
+		}
 		switch o.Sidecar {
 		case 1:
-			bid.SidecarTicket = &sidecar.Ticket{}
+			bid.SidecarTicket = &sidecar.Ticket{Offer: offer}
 			if len(o.Nonce) > 0 && o.Nonce[len(o.Nonce)-1]&1 == 1 {
 				bid.SidecarTicket.Recipient = &sidecar.Recipient{}
 			}
@@ -384,7 +400,7 @@ func (c *bCase) install(s *bSession) error {
 			if err != nil {
 				return err
 			}
-			bid.SidecarTicket = &sidecar.Ticket{Recipient: &sidecar.Recipient{MultiSigPubKey: k}}
+			bid.SidecarTicket = &sidecar.Ticket{Offer: offer, Recipient: &sidecar.Recipient{MultiSigPubKey: k}}
 		}
 		s.store.orders[n] = bid
 	}
@@ -612,6 +628,10 @@ func (c *bCase) fillOracle() {
 							continue
 						}
 						seenP[key] = true
+						// inside its domain the model computes the float itself
+						if amt >= 0 && order.PerBlockPremium(btcutil.Amount(amt), price)*float64(dur) < 9223372036854775808.0 {
+							continue
+						}
 						c.Oracle.Premium = append(c.Oracle.Premium, bPremium{amt, price, dur, bPremiumOf(amt, price, dur)})
 					}
 				}
@@ -758,6 +778,7 @@ type bResult struct {
 func (c *bCase) run(r *Run, s *bSession) bResult {
 	c.Env.MinNoDust = int64(order.MinNoDustAccountSize)
 	c.fillOracle()
+	c.MarketOrder = []uint32{}
 	res := bResult{before: "-"}
 	if s.mgr.HasPendingBatch() {
 		res.before = hex.EncodeToString(s.mgr.PendingBatch().ID[:])
@@ -778,6 +799,7 @@ func (c *bCase) run(r *Run, s *bSession) bResult {
 			return
 		}
 		res.batch = batch
+		c.MarketOrder = c.observedMarketOrder(batch)
 		err = s.mgr.OrderMatchValidate(batch, c.Best)
 		res.class = bClassify(err)
 	}()
@@ -808,6 +830,119 @@ func (c *bCase) run(r *Run, s *bSession) bResult {
 	r.Evaluations++
 	r.Count("class/" + res.class)
 	return res
+}
+
+// effective returns the case as ParseRPCBatch saw it in this run: of the entries
+// of a nonce that occurs in several markets only the one written last survives.
+func (c *bCase) effective() *bCase {
+	if len(c.MarketOrder) == 0 {
+		return c
+	}
+	pos := map[uint32]int{}
+	for i, d := range c.MarketOrder {
+		pos[d] = i
+	}
+	winner := map[string]uint32{}
+	best := map[string]int{}
+	for i := range c.Msg.Markets {
+		mk := &c.Msg.Markets[i]
+		for j := range mk.Orders {
+			n := mk.Orders[j].Nonce
+			if p, ok := best[n]; !ok || pos[mk.Duration] > p {
+				best[n] = pos[mk.Duration]
+				winner[n] = mk.Duration
+			}
+		}
+	}
+	ec := *c
+	ec.Msg.Markets = nil
+	for i := range c.Msg.Markets {
+		mk := c.Msg.Markets[i]
+		var keep []bMatched
+		for _, mo := range mk.Orders {
+			if winner[mo.Nonce] == mk.Duration {
+				keep = append(keep, mo)
+			}
+		}
+		mk.Orders = keep
+		ec.Msg.Markets = append(ec.Msg.Markets, mk)
+	}
+	return &ec
+}
+
+// observedMarketOrder: when a nonce occurs in several markets, which entry the
+// real ParseRPCBatch kept depends on Go's map iteration order. Find an order of
+// the markets that explains the parsed batch (last write wins).
+func (c *bCase) observedMarketOrder(batch *order.Batch) []uint32 {
+	count := map[string]int{}
+	for i := range c.Msg.Markets {
+		for j := range c.Msg.Markets[i].Orders {
+			count[c.Msg.Markets[i].Orders[j].Nonce]++
+		}
+	}
+	dup := false
+	for _, n := range count {
+		if n > 1 {
+			dup = true
+		}
+	}
+	if !dup {
+		return []uint32{}
+	}
+	sig := func(mo *bMatched) string {
+		s := ""
+		for _, t := range append(append([]bTheir{}, mo.Asks...), mo.Bids...) {
+			s += fmt.Sprintf("%s/%d/%d;", t.Nonce, t.Duration, t.UnitsFilled)
+		}
+		return s
+	}
+	observed := map[string]string{}
+	for n, ms := range batch.MatchedOrders {
+		s := ""
+		for _, m := range ms {
+			mn := m.Order.Nonce()
+			s += fmt.Sprintf("%s/%d/%d;", hex.EncodeToString(mn[:]), m.Order.Details().LeaseDuration, uint32(m.UnitsFilled))
+		}
+		observed[hex.EncodeToString(n[:])] = s
+	}
+	idx := make([]int, len(c.Msg.Markets))
+	for i := range idx {
+		idx[i] = i
+	}
+	var try func(k int) []uint32
+	try = func(k int) []uint32 {
+		if k == len(idx) {
+			last := map[string]string{}
+			for _, i := range idx {
+				for j := range c.Msg.Markets[i].Orders {
+					mo := &c.Msg.Markets[i].Orders[j]
+					last[mo.Nonce] = sig(mo)
+				}
+			}
+			for n, s := range last {
+				if observed[n] != s {
+					return nil
+				}
+			}
+			res := []uint32{}
+			for _, i := range idx {
+				res = append(res, c.Msg.Markets[i].Duration)
+			}
+			return res
+		}
+		for i := k; i < len(idx); i++ {
+			idx[k], idx[i] = idx[i], idx[k]
+			if r := try(k + 1); r != nil {
+				return r
+			}
+			idx[k], idx[i] = idx[i], idx[k]
+		}
+		return nil
+	}
+	if r := try(0); r != nil {
+		return r
+	}
+	return []uint32{}
 }
 
 // ---------------------------------------------------------------- oracle helpers (independent of the model)
@@ -844,6 +979,39 @@ type bMatchRef struct {
 	t     *bTheir
 	isAsk bool // their side
 	mk    *bMarket
+}
+
+// ourKey / taproot / matchOutput: what an honest auctioneer funds for this match
+func (m bMatchRef) ourKey() string {
+	if !m.o.IsAsk && m.o.Sidecar == 2 {
+		return m.o.SidecarKey
+	}
+	return bKeyHex(int(m.o.KeyIndex & 0xff))
+}
+
+func (m bMatchRef) taproot() bool { return m.o.ChanType == 2 && m.t.ChanType == 3 }
+
+// matchOutput finds the honest channel output of a match in the transaction
+// (-1 if it is not there) and returns the bid's self channel balance it uses.
+func (c *bCase) matchOutput(m bMatchRef) (int, int64) {
+	if m.o == nil {
+		return -1, 0
+	}
+	self := m.o.SelfChanBalance
+	if m.o.IsAsk {
+		self = int64(m.t.SelfChanBalance)
+	}
+	sp := bFundScriptOf(m.taproot(), m.ourKey(), m.t.MultiSigKey)
+	if sp == nil {
+		return -1, 0
+	}
+	want := int64(m.t.UnitsFilled)*100_000 + self
+	for i, o := range c.Msg.TxOuts {
+		if o.Value == want && o.Script == *sp {
+			return i, self
+		}
+	}
+	return -1, 0
 }
 
 func (c *bCase) allMatches() []bMatchRef {
@@ -1148,7 +1316,7 @@ func runBatch(r *Run) {
 
 	// compiled constants vs regenerated facts
 	r.Emit(r.Prop+" consts", fmt.Sprintf("pad=%d unit=%d p2wsh=%d input=%d scale=%d tapwit=%d wit=%d latest=%d",
-		order.VerifHeightHintPadding, int64(order.BaseSupplyUnit), input.P2WSHOutputSize, input.InputSize, blockchain.WitnessScaleFactor,
+		order.VerifC01HeightHintPadding, int64(order.BaseSupplyUnit), input.P2WSHOutputSize, input.InputSize, blockchain.WitnessScaleFactor,
 		poolscript.TaprootMultiSigWitnessSize, poolscript.MultiSigWitnessSize, uint32(order.LatestBatchVersion)))
 
 	var sess *bSession
@@ -1195,18 +1363,24 @@ func runBatch(r *Run) {
 		}
 		r.Count("accepted")
 		c.countShape(r)
+		if len(c.MarketOrder) > 0 {
+			r.Count("acc/same-nonce-in-two-markets")
+		}
+		orig := c
+		c = c.effective()
+		defer func() { c = orig }()
 		switch r.Prop {
 		case "C01":
 			if w := c.oracleC01(); w != "" {
-				r.Violate("accepted batch: "+w, "C01/terms", c)
+				r.Violate("accepted batch: "+w, "C01/terms", orig)
 			}
 		case "C02":
 			if w, key := c.oracleC02(); w != "" {
-				r.Violate("accepted batch: "+w, key, c)
+				r.Violate("accepted batch: "+w, key, orig)
 			}
 		case "C03":
 			if w := c.oracleC03(); w != "" {
-				r.Violate("accepted batch: "+w, "C03/funding", c)
+				r.Violate("accepted batch: "+w, "C03/funding", orig)
 			}
 		}
 	}
